@@ -67,6 +67,8 @@ type smaWorld struct {
 	reports  int
 	cfgAddrs []string
 	keptReports []*retained
+	hsc      <-chan diam.Conn
+	stallRun bool // one CEA write of this run may stall while the other connection goes on
 }
 
 var smaHostname = "srv.dsim.example"
@@ -146,8 +148,30 @@ func newSmaWorld(e *Env, prop string) *smaWorld {
 	}
 	if t.Chance(2, 3) {
 		h := newH()
-		w.mach.HandleFunc("ALL", w.appHandler(h))
+		if t.Chance(1, 2) {
+			w.mach.HandleFunc("ALL", w.appHandler(h))
+		} else {
+			// the same catch-all, registered through the index API
+			w.mach.HandleIdx(diam.ALL_CMD_INDEX, w.appHandler(h))
+			e.Probe("catch-all-by-index")
+		}
 		w.regs.all = h
+	}
+	// a server-role state machine has no use for DWAs itself: they are the application's
+	if t.Chance(1, 4) {
+		h := newH()
+		w.mach.HandleIdx(diam.CommandIndex{AppID: 0, Code: cmdDW, Request: false}, w.appHandler(h))
+		w.regs.idx[[3]uint32{0, cmdDW, 0}] = h
+	}
+	if t.Chance(1, 3) {
+		h := newH()
+		w.mach.HandleFunc("DWA", w.appHandler(h))
+		w.regs.name["DWA"] = h
+	}
+	if t.Chance(1, 2) {
+		// the application asked for handshake notifications and is slow to pick them up
+		w.hsc = w.mach.HandshakeNotify()
+		e.Probe("handshake-notify-not-drained")
 	}
 	// attempts to take over the built-in processing must be refused
 	imp := func(c diam.Conn, m *diam.Message) {
@@ -306,7 +330,7 @@ func drawCERSpec(t *Tape, wantAccept int) cerSpec {
 func (w *smaWorld) genConn(i int, nItems int) *smaConn {
 	t := w.e.T
 	c := &smaConn{name: fmt.Sprintf("c%d", i)}
-	c.sc = newSimConn(w.e, c.name, drawAddr(t, 3868), drawAddr(t, 41000+i))
+	c.sc = newSimConn(w.e, c.name, drawLocalAddr(t, 3868), drawAddr(t, 41000+i))
 	if t.Chance(1, 5) {
 		c.sc.MaxRead = t.Range(1, 50)
 	}
@@ -315,7 +339,7 @@ func (w *smaWorld) genConn(i int, nItems int) *smaConn {
 	usedDWR := map[[2]uint32]bool{}
 	for k := 0; k < nItems; k++ {
 		it := &smaItem{}
-		switch t.Pick(4, 2, 2, 2, 5, 2, 1) {
+		switch t.Pick(4, 2, 2, 2, 5, 2, 1, 1) {
 		case 0:
 			it.kind = "cer"
 			it.spec = drawCERSpec(t, 1)
@@ -336,8 +360,10 @@ func (w *smaWorld) genConn(i int, nItems int) *smaConn {
 			it.kind = "app-req"
 		case 5:
 			it.kind = "app-ans"
-		default:
+		case 6:
 			it.kind = "cea" // a CEA sent to a server: nothing built-in handles it
+		default:
+			it.kind = "dwa" // a DWA sent to a server: an application message like any other
 		}
 		switch it.kind {
 		case "cer":
@@ -345,6 +371,9 @@ func (w *smaWorld) genConn(i int, nItems int) *smaConn {
 			lastCER = it
 			if t.Chance(1, 6) {
 				it.failWrite = []string{"perm", "temp", "plain"}[t.Draw(3)]
+				it.failAfter = t.Range(0, 60)
+			} else if w.stallRun && t.Chance(1, 3) {
+				it.failWrite = "stall" // the peer stops reading: the CEA write blocks for a while
 				it.failAfter = t.Range(0, 60)
 			}
 		case "dwr":
@@ -370,6 +399,11 @@ func (w *smaWorld) genConn(i int, nItems int) *smaConn {
 				m.Flags = 0x80
 			}
 			m.AVPs = []RefAVP{{Code: avpSessionID, Flags: 0x40, Data: marker(i, k, 12+t.Draw(30), 'x')}}
+			m.AVPs = append(m.AVPs, identAVPs(peerHost, "example", true, true)...)
+			it.msg = m
+		case "dwa":
+			m := RefMsg{Cmd: cmdDW, App: 0, HbH: uint32(k + 1), E2E: uint32(100 + k)}
+			m.AVPs = []RefAVP{{Code: avpSessionID, Flags: 0x40, Data: marker(i, k, 12+t.Draw(30), 'x')}, {Code: 268, Flags: 0x40, Data: u32(2001)}}
 			m.AVPs = append(m.AVPs, identAVPs(peerHost, "example", true, true)...)
 			it.msg = m
 		case "cea":
@@ -449,6 +483,31 @@ func (w *smaWorld) step(ci int, k int, split bool) bool {
 		c.sc.Deliver(burst)
 	}
 	e.Quiesce()
+	if armed == "stall" {
+		armed = ""
+		if c.sc.Stalled() {
+			// the CEA (or whatever this item made the library write) is stuck in the transport;
+			// meanwhile the other connections are served as if nothing had happened
+			e.Fault("cea-write-stall")
+			for oi, oc := range w.conns {
+				if oi != ci && oc.next < len(oc.items) && oc.items[oc.next].failWrite != "stall" {
+					n := 1 + e.T.Draw(min(3, len(oc.items)-oc.next))
+					for j := 1; j < n; j++ {
+						if oc.items[oc.next+j].failWrite == "stall" {
+							n = j
+							break
+						}
+					}
+					e.Probe("other-connection-served-during-stalled-cea")
+					if !w.step(oi, n, false) {
+						return false
+					}
+				}
+			}
+			c.sc.Resume()
+			e.Quiesce()
+		}
+	}
 	w.drainReports()
 	c.collect(e, w.prop)
 	if e.Failed() || !w.checkKept("after further messages were read") {
@@ -624,6 +683,11 @@ func (w *smaWorld) model(ci, seq int, it *smaItem, writeFaultArmed bool) bool {
 			e.Probe("app-handler-after-handshake")
 		}
 		return w.expectEnter(ci, seq, want, c)
+	case "dwa":
+		if !c.hs {
+			return true // any ENTER is caught by the caller as unexpected
+		}
+		return w.expectEnter(ci, seq, w.selApp(0, cmdDW, false, "DW"), c)
 	case "cea":
 		if c.hs && w.regs.all != "" {
 			// only the catch-all can match a CEA on a server; it carries no marker
@@ -735,8 +799,8 @@ func (w *smaWorld) checkCEA(c *smaConn, it *smaItem, a *RefMsg) bool {
 			return false
 		}
 	} else {
-		local := c.sc.LocalAddr().(*net.TCPAddr).IP.String()
-		if len(got) == 0 || !containsStr(got, local) {
+		local := endpointIPs(c.sc.LocalAddr())
+		if len(got) == 0 || !sharesAddr(got, c.sc.LocalAddr()) {
 			e.Fail("C11/cea-host-addresses/local-endpoint", "%s: no host address configured; CEA Host-IP-Address %v does not contain the local endpoint %s", c.name, got, local)
 			return false
 		}
@@ -796,7 +860,23 @@ func containsStr(l []string, s string) bool {
 }
 
 func (w *smaWorld) teardown() {
+	if w.hsc != nil {
+		// now the application gets round to its notifications (lets a sender that waits go on)
+		hsc := w.hsc
+		stop := make(chan struct{})
+		defer close(stop)
+		go func() {
+			for {
+				select {
+				case <-hsc:
+				case <-stop:
+					return
+				}
+			}
+		}()
+	}
 	for _, c := range w.conns {
+		c.sc.Resume()
 		c.sc.EndRead(io.EOF, false)
 	}
 	w.lis.Close()
@@ -813,6 +893,13 @@ func smaRun(e *Env, prop string) {
 	w := newSmaWorld(e, prop)
 	defer w.teardown()
 	nc := t.Range(1, 2)
+	if prop == "C08" {
+		nc = 2
+	}
+	if nc == 2 && (prop == "C08" || t.Chance(1, 3)) {
+		w.stallRun = true
+		e.TrustWait = false // a handler is held inside a transport write while others run
+	}
 	maxItems := 12
 	for i := 0; i < nc; i++ {
 		c := w.genConn(i, t.Range(1, maxItems))
